@@ -242,7 +242,8 @@ def run(rep, facts, tier):
                         ok = False
                         why = '%s calls run() outside a mode test: Compile mode would execute code' % short(caller)
         rep.add('C11.R4', 'C11.R4:caller-of-run:%s' % caller, ok, 'drive function / under a mode test' if ok else why, caller, f.j['span'])
-    for caller in sorted(fx.callers().get('state::State::fetch_and_run', ())):
+    from .. import inline as _inl, stepfx as _sfx
+    for caller in sorted(_sfx.callers_seen_through(fx, _inl.View(fx), 'state::State::fetch_and_run')):
         base = caller.split('::{closure')[0]
         ok = base in ('state::State::run', 'state::State::next', 'state::State::fetch_and_run')
         rep.add('C11.R4', 'C11.R4:caller-of-fetch_and_run:%s' % caller, ok, 'step driver' if ok else '%s executes instructions directly' % short(caller), caller,
